@@ -33,9 +33,53 @@ def main(pid, path):
     handler = REPLAYERS.get(kind)
     if handler is not None:
         return handler(rec)
+    if w.get("source"):
+        return _generic(w)
     print("no executable replay recorded for this obligation (no-failing-input-found); verifier output:")
     print(json.dumps(rec.get("verifier_output"), indent=1))
     return 0
 
 
 REPLAYERS = {}
+
+
+def _generic(w):
+    """witnesses of the enumerated / bounded obligations: a schema source plus (where it is an expression) the call that failed"""
+    import datetime
+
+    from . import build
+
+    print("schema source:")
+    print("    " + w["source"].strip().replace("\n", "\n    ")[-1500:])
+    try:
+        mod, _ = build.build_module(w["source"])
+    except Exception as e:  # noqa
+        print(f"replay: building the schema raises {type(e).__name__}: {e}")
+        return 1
+    try:
+        expr = w.get("input")
+        print(f"recorded:  {w.get('why')}")
+        if not isinstance(expr, str):
+            print("replay: the schema builds; no call expression recorded")
+            return 0
+        ns = dict(vars(mod))
+        ns.setdefault("date", datetime.date)
+        try:
+            code = compile(expr, "<replay>", "eval")
+        except SyntaxError:
+            print(f"replay: the recorded input is a description, not an expression: {expr}")
+            return 0
+        try:
+            out = repr(eval(code, ns))
+        except NameError as e:
+            print(f"replay: the recorded input is not self-contained ({e}): {expr}")
+            return 0
+        except Exception as e:  # noqa
+            out = f"{type(e).__name__}: {e}"
+        print(f"call:      {expr}\nresult:    {out[:400]}")
+        rec = str(w.get("got") or "") + " " + str(w.get("why") or "")
+        same = out[:80] in rec or (w.get("expected") is not None and out != str(w.get("expected")))
+        print("replay: reproduced on this tree" if same else "replay: not reproduced on this tree")
+        return 1 if same else 0
+    finally:
+        build.drop_module(mod)
